@@ -12,7 +12,7 @@ RULE = ("random valid programs with subcircuit blocks (top level, in loops, with
         "and native bounding definitions are the ones used; the two spellings give identical emulation results (same seed) and identical "
         "output-list parsing; non-trivial = program has a subcircuit block")
 BOUND = "n <= 3 qubits, <= 2 top-level segments, depth <= 3"
-BUDGET_S = {"quick": 40, "thorough": 900}
+BUDGET_S = {"quick": 40, "thorough": 400}
 
 
 def explicit(p):
@@ -48,6 +48,12 @@ def cases(tier, rng):
         n = rng.choice([1, 2, 3])
         g = ref.Gen(rng, n=n, use_sub=True, bracket=True, gates=("X", "H", "Rx", "CX"), max_depth=2)
         p = g.program()
+        if i % 4 == 1:
+            # a subcircuit block inside a macro that is called from another macro (both levels must be rebuilt, and the
+            # calls must refer to the rebuilt definitions)
+            p["macros"].append(("msb", ["x", "c"], ("seq", [("sub", "c", [("gate", "X", [("id", "x")])])])))
+            p["macros"].append(("mso", ["y"], ("seq", [("gate", "msb", [("id", "y"), ("num", rng.choice([1, 2]))])])))
+            p["body"].append(("gate", "mso", [("q", "q", 0)]))
         brackets = False
         if i % 5 == 0:
             # a subcircuit block whose body itself begins with prepare_all or ends with measure_all: still bracketed by
@@ -119,6 +125,8 @@ def check(pl):
                 elif hasattr(s, "statements"):
                     walk(s.statements if not hasattr(s, "parallel") else s)
         walk(circ.body)
+        for mac in circ.macros.values():
+            walk(mac.body)
         return out
     if "subcircuit" in text:
         ng = c.native_gates
